@@ -18,6 +18,9 @@ RULE = (
     "cases use n_samples>=2e4 and test every grain's count against Binomial(n, f) with a "
     "two-sided z bound of 7. Malformed cases: every wrong-rank / mismatched N or M / "
     "trailing shape != (3,3) combination incl. broadcastable (1,3),(3,1),(1,1). "
+    "Generated shapes: ranks 0..5 / 0..3 with dimensions biased towards 3, fractions "
+    "optionally tied to the leading dimensions, decided by the consistency rule in both "
+    "directions. "
     "Non-trivial: M>=3 with non-uniform volumes (membership/distribution) or a zero-volume "
     "grain present; distinct = distinct canonical JSON."
 )
